@@ -7,6 +7,7 @@ import (
 	"github.com/glebziz/fs_db/internal/model"
 	"github.com/glebziz/fs_db/internal/model/core"
 	"github.com/glebziz/fs_db/internal/model/sequence"
+	"github.com/glebziz/fs_db/internal/utils/vhook"
 )
 
 func (u *UseCase) Store(ctx context.Context, f model.File) error {
@@ -24,10 +25,12 @@ func (u *UseCase) Store(ctx context.Context, f model.File) error {
 	}()
 
 	f.Seq = sequence.Next()
+	vhook.AtSeq("core.store.seq", uint64(f.Seq))
 	err := u.fileRepo.Set(ctx, f)
 	if err != nil {
 		return fmt.Errorf("db set: %w", err)
 	}
+	vhook.AtID("core.store.persisted", f.ContentId)
 
 	u.storeToTx(tx, f)
 
